@@ -40,6 +40,9 @@ def sweep(ctx, sc, stages=None):
                 ctx.violation('check:%s' % name,
                               '%s state, corruption "%s": from_dict gives %s, the property requires %s' % (stage, name, got, 'acceptance' if want == 'ok' else 'ValueError'),
                               {'scene': energy.scene_input(sc), 'stage': stage, 'corruption': name}, got, want)
+            if kinds is None:
+                ctx.count('translator_unavailable')
+                continue
             try:
                 toks = lifecycle.cfg_tokens(d, kinds)
             except Exception as e:
